@@ -87,6 +87,16 @@ theorem gen_no_inplace_on_arguments :
     fpmNoInPlaceOnArguments = true ∧ fpmWrapNoInPlaceOnArguments = true ∧ babinetNoInPlaceOnArguments = true ∧
     ffsNoInPlaceOnArguments = true ∧ ufsNoInPlaceOnArguments = true := by decide
 
+/-- no entry point that shares the executor caches with the fixed-sampling routes — `dft2`, `idft2`, `czt2`, `iczt2` and the
+gradient entry points `dft2_backprop`, `idft2_backprop` (`czt2_backprop` / `iczt2_backprop` where they exist) — applies an in-place
+NumPy operation (augmented assignment, item assignment, `out=`, mutating method) to an object read from a cache (`self.Eout[key]`,
+`self.Ein[key]`, `self.components[key]`) or to a view / alias of one: a forward result does not depend on which calls, forward or
+backprop, came before it (AST scan of the current source, re-done every run; the call-history family executes the claim) -/
+theorem gen_no_inplace_on_caches :
+    mdftDft2NoInPlaceOnCache = true ∧ mdftIdft2NoInPlaceOnCache = true ∧ mdftDft2BackpropNoInPlaceOnCache = true ∧
+    mdftIdft2BackpropNoInPlaceOnCache = true ∧ cztCzt2NoInPlaceOnCache = true ∧ cztIczt2NoInPlaceOnCache = true ∧
+    cztCzt2BackpropNoInPlaceOnCache = true ∧ cztIczt2BackpropNoInPlaceOnCache = true := by decide
+
 /-- the per-axis `Q` of both free functions as re-read by THIS check (each axis from its own sample count) -/
 theorem gen_fixed_Q (s0 s1 M0 M1 dx z lam dxo sh0 sh1 : K) :
     ffsQ0 s0 s1 M0 M1 dx z lam dxo sh0 sh1 = Model.C03.axisQ s0 dx z lam dxo ∧
